@@ -33,12 +33,20 @@ class Infra(Exception):
     """Infrastructure failure: exit 2, never a verdict."""
 
 
-def run(cmd, timeout=None, env=None, cwd=None, stdin=None, check=False, capture=True):
+def run(cmd, timeout=None, env=None, cwd=None, stdin=None, check=False, capture=True, mem_gb=None):
+    """mem_gb: address-space limit for the child (plain builds only: the sanitizers reserve terabytes of shadow memory).  A driver whose codec call
+    asks for more fails with std::bad_alloc instead of taking the machine down with it."""
     e = dict(os.environ)
     if env:
         e.update(env)
+    pre = None
+    if mem_gb:
+        import resource
+
+        def pre():
+            resource.setrlimit(resource.RLIMIT_AS, (mem_gb << 30, mem_gb << 30))
     try:
-        p = subprocess.run(cmd, cwd=cwd, env=e, timeout=timeout, input=stdin,
+        p = subprocess.run(cmd, cwd=cwd, env=e, timeout=timeout, input=stdin, preexec_fn=pre,
                            stdout=subprocess.PIPE if capture else None,
                            stderr=subprocess.STDOUT if capture else None,
                            shell=isinstance(cmd, str), text=True, errors="replace")
